@@ -361,6 +361,114 @@ pub fn run(ctx: &'static Ctx) {
         emb.fetch_add(offs.load(Ordering::Relaxed), Ordering::Relaxed);
         ctx.engine("E3.embedded-offsets", json!({"objects": offs.load(Ordering::Relaxed), "containers": kinds.len(), "pads": ks.len(), "integers": 7}));
     }
+    // every operand slot of every constructor that takes a single `&dyn Aml` (the pair principle: each integer class through
+    // each receiving site, because a site may collect its operand in a private buffer of its own): the object must equal the
+    // one whose integer operand is replaced by the reference encoding handed over as plain bytes
+    {
+        use crate::amlobj::Bytes;
+        use acpi_tables::aml::*;
+        type Site = (&'static str, Box<dyn Fn(&dyn Aml) -> Vec<u8> + Send + Sync>);
+        let mut sites: Vec<Site> = vec![];
+        static L: Local = Local(1);
+        macro_rules! site {
+            ($name:expr, |$x:ident| $e:expr) => {
+                sites.push(($name, Box::new(|$x: &dyn Aml| ser(&$e))));
+            };
+        }
+        site!("BufferTerm::new(x)", |x| BufferTerm::new(x));
+        site!("VarPackageTerm::new(x)", |x| VarPackageTerm::new(x));
+        site!("Name::new(_, x)", |x| Name::new("NAM0".into(), x));
+        site!("OpRegion::new(.., x, _)", |x| OpRegion::new("REG0".into(), OpRegionSpace::SystemMemory, x, &ONE));
+        site!("OpRegion::new(.., _, x)", |x| OpRegion::new("REG0".into(), OpRegionSpace::SystemMemory, &ONE, x));
+        site!("If::new(x, ..)", |x| If::new(x, vec![&ONE]));
+        site!("While::new(x, ..)", |x| While::new(x, vec![&ONE]));
+        site!("Store::new(_, x)", |x| Store::new(&L, x));
+        site!("Store::new(x, _)", |x| Store::new(x, &L));
+        site!("Notify::new(_, x)", |x| Notify::new(&L, x));
+        site!("Return::new(x)", |x| Return::new(x));
+        site!("SizeOf::new(x)", |x| SizeOf::new(x));
+        site!("ObjectType::new(x)", |x| ObjectType::new(x));
+        site!("DeRefOf::new(x)", |x| DeRefOf::new(x));
+        site!("Equal::new(x, _)", |x| Equal::new(x, &ONE));
+        site!("Equal::new(_, x)", |x| Equal::new(&ONE, x));
+        site!("NotEqual::new(_, x)", |x| NotEqual::new(&ONE, x));
+        site!("LessThan::new(x, _)", |x| LessThan::new(x, &ONE));
+        site!("GreaterEqual::new(_, x)", |x| GreaterEqual::new(&ONE, x));
+        site!("Add::new(_, x, _)", |x| Add::new(&L, x, &ONE));
+        site!("Add::new(_, _, x)", |x| Add::new(&L, &ONE, x));
+        site!("And::new(_, x, _)", |x| And::new(&L, x, &ONE));
+        site!("ShiftLeft::new(_, _, x)", |x| ShiftLeft::new(&L, &ONE, x));
+        site!("Index::new(_, _, x)", |x| Index::new(&L, &L, x));
+        site!("CreateDWordField::new(_, _, x)", |x| CreateDWordField::new(&L, &L, x));
+        site!("ToInteger::new(_, x)", |x| ToInteger::new(&L, x));
+        site!("ToBuffer::new(_, x)", |x| ToBuffer::new(&L, x));
+        site!("CreateField::new(_, _, x, _)", |x| CreateField::new(&L, &L, x, &ONE));
+        site!("CreateField::new(_, _, _, x)", |x| CreateField::new(&L, &L, &ONE, x));
+        site!("Mid::new(_, x, _, _)", |x| Mid::new(&L, x, &ONE, &L));
+        site!("Mid::new(_, _, x, _)", |x| Mid::new(&L, &ONE, x, &L));
+        site!("MethodCall::new(_, [x])", |x| MethodCall::new("MTH0".into(), vec![x]));
+        site!("MethodCall::new(_, [_, x])", |x| MethodCall::new("MTH0".into(), vec![&ONE, x]));
+        let mut ops: Vec<u64> = vec![];
+        for b in [0u64, 1, 2, 0x55, 0x80, 0xff, 0x100, 0x1234, 0xffff, 0x1_0000, 0x1234_5678, 0xffff_ffff, 0x1_0000_0000, 0x1122_3344_5566_7788, 1 << 63, u64::MAX] {
+            for d in [0u64, 1, u64::MAX] {
+                ops.push(b.wrapping_add(d));
+            }
+        }
+        for sh in 0..64 {
+            ops.push(1u64 << sh);
+        }
+        ops.sort_unstable();
+        ops.dedup();
+        let n_ops = AtomicU64::new(0);
+        sites.par_iter().for_each(|(name, f)| {
+            for v in &ops {
+                let v = *v;
+                for carrier in ["u8", "u16", "u32", "u64", "usize"] {
+                    let fits = match carrier {
+                        "u8" => v <= 0xff,
+                        "u16" => v <= 0xffff,
+                        "u32" => v <= 0xffff_ffff,
+                        _ => true,
+                    };
+                    if !fits {
+                        continue;
+                    }
+                    let (a8, a16, a32, a64, au) = (v as u8, v as u16, v as u32, v, v as usize);
+                    let int: &dyn Aml = match carrier {
+                        "u8" => &a8,
+                        "u16" => &a16,
+                        "u32" => &a32,
+                        "usize" => &au,
+                        _ => &a64,
+                    };
+                    let mut enc = vec![];
+                    int_encode(v, &mut enc);
+                    let refc = Bytes(enc);
+                    n_ops.fetch_add(1, Ordering::Relaxed);
+                    let (got, want) = (crate::util::catch(|| f(int)), crate::util::catch(|| f(&refc)));
+                    // differential oracles share the site's own buffering, so two independent facts as well: the object
+                    // is exactly as much longer than the one with an empty operand as the reference encoding is long
+                    // (all bodies here stay below 63 bytes, so the PkgLength, where there is one, keeps one byte), and
+                    // the reference encoding appears in it
+                    let empty = crate::util::catch(|| f(&Bytes(vec![])));
+                    let independent = match (&got, &empty) {
+                        (Ok(g), Ok(e)) => g.len() == e.len() + refc.0.len() && g.windows(refc.0.len()).any(|w| w == &refc.0[..]),
+                        _ => false,
+                    };
+                    if got != want || got.is_err() || !independent {
+                        ctx.violation_sized(
+                            &format!("int:operand:{}", name),
+                            v,
+                            || format!("{} with x = {:#x} as {}: differs from the same object with the integer's narrowest encoding handed over as bytes, or is not exactly that encoding longer than the object with an empty operand: {:?} | {:?}", name, v, carrier, got.as_ref().map(|b| hex(&b[..b.len().min(24)])), want.as_ref().map(|b| hex(&b[..b.len().min(24)]))),
+                            || json!({"family":"int-operand","site":name,"value":v,"carrier":carrier}),
+                        );
+                    }
+                }
+            }
+        });
+        emb.fetch_add(n_ops.load(Ordering::Relaxed), Ordering::Relaxed);
+        ctx.engine("E3.operand-sites", json!({"objects": n_ops.load(Ordering::Relaxed), "sites": sites.len(), "values": ops.len(), "carriers": 5}));
+    }
     calls.fetch_add(emb.load(Ordering::Relaxed), Ordering::Relaxed);
     ctx.engine("E3.embedded", json!({"buffer_sizes": max + 1, "package_elements": vals.len().min(4000)}));
     ctx.tr(calls.load(Ordering::Relaxed));
